@@ -15,6 +15,7 @@
    cfU = one-off job as found in the pinned tree, cfP = periodic job. *)
 From Verif Require Import Lib.Base Lib.Sched Lib.Reach Model.C02_Scheduler Model.C02_Script Proofs.C02 Proofs.C02_Script Proofs.C02_ScriptExact Proofs.C02_ScriptMore Proofs.C02_ScriptCancel.
 From Verif Require Import Model.C02_TableOps Check.C02 Proofs.C02_Check.
+From Verif Require Import Proofs.C02_Exit.
 
 (* never twice: under every schedule jobFunc of a one-off job is called at most once, and at most
    one call is in progress; no send on / close of a closed channel ever happens.  Holds for the
@@ -618,3 +619,80 @@ Example C02_justified_examples :
   /\ justified 2 None [1; 3; 5] [2; 5; 7] [1] = false
   /\ justified 2 None [4; 6] [4; 8] [4] = true.
 Proof. vm_compute. split; [reflexivity | split; reflexivity]. Qed.
+
+(* --- the job table after the job's goroutine has ended (strengthening round 4) ------------------- *)
+
+(* whatever the way out -- context branch, cancel branch, runtimeFunc returning ErrNoMoreInstances or
+   an error, a one-off job's single run, the timer branch as found -- under EVERY schedule of every
+   configuration a goroutine that has returned has left no table entry behind *)
+Theorem C02_ended_goroutine_not_listed :
+  forall cf sch, let s := run (step cf) sch (init cf) in g_pc s = GDone -> in_table s = false.
+Proof. exact ended_goroutine_not_listed. Qed.
+Print Assumptions C02_ended_goroutine_not_listed.
+
+(* EVERY script, one-off or periodic, any calls at any instants, every interleaving: a state in which
+   the script can end with the parent context cancelled -- while the job waited or while jobFunc was
+   in flight --, no jobFunc in progress and no call stuck inside a state-lock section is one in which
+   the goroutine has returned and the name is free: JobExists false, ScheduleJob of the name accepted,
+   and that job runs *)
+Theorem C02_script_ctx_exit_leaves_table :
+  forall sc t, In t (finals sc) ->
+    ctx_done (t_core t) = true -> running (t_core t) = 0 -> lock_free (t_core t) = true ->
+    g_pc (t_core t) = GDone /\ in_table (t_core t) = false
+    /\ o_exists (outcome_of t) = false /\ o_reuse (outcome_of t) = Nil /\ o_reuse_runs (outcome_of t) = 1.
+Proof. exact script_ctx_exit_leaves_table. Qed.
+Print Assumptions C02_script_ctx_exit_leaves_table.
+
+(* the calls that come after the goroutine's end find nothing: RunJob and CancelJob return
+   ErrNoSuchJob without touching the job (no run request "succeeds" on a job nobody will run),
+   JobExists answers false, ScheduleJob of the name is accepted *)
+Theorem C02_script_calls_after_exit_find_nothing :
+  forall sc now t i cl, in_table (t_core t) = false -> cl_at cl <= now ->
+    call_moves sc now t i cl Waiting =
+      match cl_kind cl with
+      | KRun | KCancel => [with_call t i (Ret ErrNoSuchJob) (t_core t)]
+      | KCtx => [with_call t i (Ret Nil) (match step (sc_cfg sc) (t_core t) CtxCancel with Some c' => c' | None => t_core t end)]
+      | KDup => [with_call t i (Ret Nil) (t_core t)]
+      | KExists => [with_call t i (RetB false) (t_core t)]
+      end.
+Proof. exact calls_after_exit. Qed.
+Print Assumptions C02_script_calls_after_exit_find_nothing.
+
+(* for what the implementation was SEEN to do: an accepted observation that came to rest with no
+   jobFunc in flight is the outcome of a final state of the model's script, and if that state has the
+   context cancelled and no call stuck, the implementation answered JobExists = false, accepted the
+   ScheduleJob of the name and ran that job once *)
+Theorem C02_checked_observation_ctx_exit_leaves_table :
+  forall c sc os, agree c = true -> c_body c = Timed sc os ->
+    forall ob, In ob os -> ob_hung ob = false -> ob_running ob = 0 ->
+    exists t, In t (finals sc) /\ running (t_core t) = 0
+      /\ (ctx_done (t_core t) = true -> lock_free (t_core t) = true ->
+          o_exists (ob_out ob) = false /\ o_reuse (ob_out ob) = Nil /\ o_reuse_runs (ob_out ob) = 1).
+Proof. exact checked_ctx_exit_leaves_table. Qed.
+Print Assumptions C02_checked_observation_ctx_exit_leaves_table.
+
+(* non-vacuity: period 2, jobFunc takes 2, two instances, the context is cancelled at 3 while the
+   first instance (started at 2) is in flight, RunJob at 6: every final state has the context
+   cancelled, nothing in flight, no call stuck; the goroutine has returned, the name is free, the
+   late RunJob found no job, and the job started once.  And the clause of P_b that speaks of it
+   accepts that observation and rejects the one in which the dead job is still listed and "accepts"
+   the run request. *)
+Definition exit_example : script :=
+  {| sc_kind := Periodic; sc_variant := Fixed; sc_due := 2; sc_dur := 2; sc_ticks := 2;
+     sc_calls := [{| cl_at := 3; cl_kind := KCtx |}; {| cl_at := 6; cl_kind := KRun |}]; sc_end := 10 |}.
+
+Example C02_exit_example :
+  (0 <? N.of_nat (length (finals exit_example))) = true
+  /\ forallb (fun t => ctx_done (t_core t) && (running (t_core t) =? 0) && lock_free (t_core t)
+                       && gpc_eqb (g_pc (t_core t)) GDone && negb (in_table (t_core t))
+                       && list_eqb cst_eqb (t_calls t) [Ret Nil; Ret ErrNoSuchJob]
+                       && list_eqb N.eqb (t_starts t) [2]) (finals exit_example) = true
+  /\ (let ob o := {| ob_out := o; ob_listed := o_exists o; ob_hung := false; ob_running := 0; ob_dup := None;
+                      ob_insts := [2]; ob_foreign := [false; false]; ob_count := 1 |} in
+      after_exit_ok exit_example
+        (ob {| o_calls := [Ret Nil; Ret ErrNoSuchJob]; o_starts := [2]; o_overlap := 1; o_exists := false;
+               o_reuse := Nil; o_reuse_runs := 1; o_panic := false |}) = true
+      /\ after_exit_ok exit_example
+        (ob {| o_calls := [Ret Nil; Ret Nil]; o_starts := [2]; o_overlap := 1; o_exists := true;
+               o_reuse := ErrJobAlreadyExists; o_reuse_runs := 0; o_panic := false |}) = false).
+Proof. vm_compute. repeat split; reflexivity. Qed.
